@@ -55,6 +55,50 @@ let () =
           | ["err"; e] -> Datatypes.Coq_inr (n_of_int (int_of_string e))
           | _ -> failwith "out" in
         print_endline (string_of_int (int_of_n (ExecArgs.conforms req fs (strs oargv) oenvp (ostr ocwd) (strs otried) out)))
+      | ["c16"; base; start; ops; t1; t2] ->
+        let open Builder in
+        let redir r = match r with
+          | "N" -> BNone | "P" -> BPipe | "M" -> BMerge
+          | _ -> BFile (n_of_int (int_of_string (String.sub r 1 (String.length r - 1)))) in
+        let tail s k = String.sub s k (String.length s - k) in
+        let op o = match String.index_opt o ':' with
+          | None -> (match o with "clear" -> OEnvClear | "det" -> ODetached | "clone" -> OClone | "swap" -> OSwap | _ -> failwith "op")
+          | Some i ->
+            let k = String.sub o 0 i and v = tail o (i + 1) in
+            (match k with
+             | "arg" -> OArg (dec_units v)
+             | "args" -> OArgs (if v = "none" then [] else dec_argv v)
+             | "env" -> (match dec_env v with [(a, b)] -> OEnv (a, b) | _ -> failwith "env")
+             | "ext" -> OEnvExtend (dec_env v)
+             | "rm" -> OEnvRemove (dec_units v)
+             | "cwd" -> OCwd (dec_units v)
+             | "in" -> if v.[0] = 'D' then OStdin (IData (dec_units (tail v 1))) else OStdin (IRedir (redir v))
+             | "out" -> OStdout (redir v)
+             | "err" -> OStderr (redir v)
+             | _ -> failwith "op") in
+        let term t = match t with
+          | "popen" -> TPopen | "join" -> TJoin | "stream_stdout" -> TStreamStdout | "stream_stderr" -> TStreamStderr
+          | "stream_stdin" -> TStreamStdin | "communicate" -> TCommunicate | "capture" -> TCapture | _ -> failwith "term" in
+        let start = match String.index_opt start ':' with
+          | Some i when String.sub start 0 i = "shell" -> shell (dec_units (tail start (i + 1)))
+          | Some i -> cmd (dec_units (tail start (i + 1)))
+          | None -> failwith "start" in
+        let ops = if ops = "none" then [] else Stdlib.List.map op (String.split_on_char ';' ops) in
+        let show_r = function BNone -> "N" | BPipe -> "P" | BMerge -> "M" | BFile i -> "F" ^ string_of_int (int_of_n i) in
+        let strs l = if l = [] then "none" else enc_argv l in
+        let show = function
+          | None -> "PANIC"
+          | Some l ->
+            Printf.sprintf "argv=%s envp=%s cwd=%s in=%s out=%s err=%s det=%s data=%s"
+              (strs l.l_argv)
+              (match l.l_env with None -> "inherit" | Some e -> strs (Env.format_env e))
+              (match l.l_cwd with None -> "none" | Some d -> enc_units d)
+              (show_r l.l_in) (show_r l.l_out) (show_r l.l_err) (b2s l.l_detached)
+              (match l.l_data with None -> "none" | Some d -> enc_units d) in
+        (match program (dec_env base) start ops (term t1) (term t2) with
+         | Datatypes.Coq_inr i -> print_endline ("panic_at " ^ string_of_int (int_of_n i))
+         | Datatypes.Coq_inl (a, b) ->
+           print_endline (show a ^ " | " ^ (match b with None -> "-" | Some x -> show x)))
       | _ -> print_endline "?"
     done
   with End_of_file -> ()
